@@ -34,7 +34,8 @@ class Spec:
     extra_exts: int = 0            # unknown extensions in ServerHello
     server_ext: bool = True        # ServerHello carries an extensions block at all (TLS 1.0-1.2)
     group_server_flight: tuple = (1, 1, 1, 1)   # how the server's handshake messages are packed into records
-    hs_secrets: bool = True        # TLS 1.3: handshake secrets present in key log
+    hs_secrets: object = True      # TLS 1.3: handshake secrets present in key log: True | False | "client" | "server" (only that side's)
+    explicit_nonce: str = "seq"    # TLS 1.2 GCM/CCM explicit nonce: "seq" (= sequence number) | "random" | "counter" (random start, incremented)
     ccs13: bool = True             # TLS 1.3 middlebox-compatibility CCS
     pad13_max: int = 0             # TLS 1.3 record padding 0..pad13_max zero bytes per record
     tickets: int = 0               # post-handshake NewSessionTicket (1.3: anywhere in the history; <=1.2: before server CCS)
@@ -166,8 +167,9 @@ def build_conn(spec: Spec, rng) -> Conn:
         hname = p["prf"]
         hl = hashlib.new(hname).digest_size
         sec = {k: rb(hl) for k in ("chs", "shs", "cap", "sap", "exp")}
-        if spec.hs_secrets:
+        if spec.hs_secrets in (True, "client"):
             keylog.append(f"CLIENT_HANDSHAKE_TRAFFIC_SECRET {cr.hex()} {sec['chs'].hex()}")
+        if spec.hs_secrets in (True, "server"):
             keylog.append(f"SERVER_HANDSHAKE_TRAFFIC_SECRET {cr.hex()} {sec['shs'].hex()}")
         if spec.keylog_extra:
             keylog.append(f"EXPORTER_SECRET {cr.hex()} {sec['exp'].hex()}")
@@ -230,8 +232,17 @@ def build_conn(spec: Spec, rng) -> Conn:
     sw = refrec.Writer(v, p, k["server_key"], k["server_iv"], k["server_mac"], rng, etm)
     fin_len = 36 if v == 0x0300 else 12
 
+    nonce_ctr = {"c": rng.getrandbits(64), "s": rng.getrandbits(64)}
+
     def penc(w, d, ctype, body, kind):
-        ev.append(Ev(d, w.protect(ctype, body, extra_pad_blocks=spec.extra_pad_blocks if v != 0x0300 else 0), kind, body))
+        en = None
+        if p["aead"] and p["mode"] != "CHACHA" and spec.explicit_nonce != "seq":
+            if spec.explicit_nonce == "random":
+                en = rb(8)
+            else:
+                nonce_ctr[d] = (nonce_ctr[d] + 1) % (1 << 64)
+                en = nonce_ctr[d].to_bytes(8, "big")
+        ev.append(Ev(d, w.protect(ctype, body, extra_pad_blocks=spec.extra_pad_blocks if v != 0x0300 else 0, explicit_nonce=en), kind, body))
 
     if spec.resumed:
         ev.append(Ev("s", refrec.plain_record(22, wire, hs(2, sh)), "hs"))
@@ -324,7 +335,8 @@ def random_spec(rng, version, code, nmax=40, big=True, avoid=()):
         comp.append(g)
         left -= g
     s.group_server_flight = tuple(comp)
-    s.hs_secrets = rng.random() < 0.8
+    s.hs_secrets = rng.choice([True, True, True, True, True, False, "client", "server"])
+    s.explicit_nonce = rng.choice(["seq", "seq", "random", "counter"])
     s.ccs13 = rng.random() < 0.7
     s.pad13_max = rng.choice([0, 0, 1, 16, 255])
     s.tickets = rng.choice([0, 0, 1, 2])
